@@ -47,7 +47,7 @@ var pureStdPackages = map[string]string{
 	"sort": "in-memory sorting", "math": "arithmetic", "math/bits": "arithmetic",
 	"bytes": "in-memory buffers", "errors": "error values", "regexp": "in-memory matching", "regexp/syntax": "in-memory",
 	"encoding/binary": "in-memory encoding (only ByteOrder methods on byte slices are reachable without an io.Reader/Writer: see io rule)",
-	"hash": "interfaces", "hash/fnv": "in-memory hashing",
+	"hash":            "interfaces", "hash/fnv": "in-memory hashing",
 	"context": "cancellation signals, no I/O", "sync": "mutexes", "sync/atomic": "atomics",
 	"time": "the clock and the time-zone database are granted by the property; the rest is arithmetic on times",
 }
@@ -491,6 +491,16 @@ func ruleGlobals(p *Program, r *Reporter) {
 						}
 					}
 				}
+				// the variable's address handed to a method or function (fieldsPool.Get(),
+				// cache.Store(…)): the callee may write through it, and what it hands back
+				// is shared between every evaluator in the process
+				if cc := callOf(ins); cc != nil && !isInitFn(fn) {
+					for _, a := range cc.Args {
+						if g, ok := a.(*ssa.Global); ok && globs[g] != nil && !isMutex(g) {
+							globs[g].writes = append(globs[g].writes, ins)
+						}
+					}
+				}
 				// element/field address taken directly from the global (arrays, structs)
 				switch x := ins.(type) {
 				case *ssa.IndexAddr:
@@ -536,7 +546,11 @@ func ruleGlobals(p *Program, r *Reporter) {
 		if bad == "" {
 			r.OkNT(key, p.Pos(g.Pos()), fmt.Sprintf("written after initialisation; all %d access(es) are made while a package-level mutex is held", len(accesses)))
 		} else {
-			r.Fail(key, p.Pos(g.Pos()), "this package-level variable is written while scripts run and is accessed without a package-level mutex held (first at "+bad+"): two evaluators used from different goroutines race on it (concurrent map access is fatal)")
+			extra := ""
+			if isStdNamed(deref(g.Type()), "sync", "Pool") || isStdNamed(deref(g.Type()), "sync", "Map") {
+				extra = " — the variable synchronises its own operations, but the objects that travel through it are shared between all evaluators of the process: an object put back while a run still holds a reference to it (a nested interpreter run, a value that escaped into a result) is handed to another evaluator, which then reads the first one's data and writes into it"
+			}
+			r.Fail(key, p.Pos(g.Pos()), "this package-level variable is written while scripts run and is accessed without a package-level mutex held (first at "+bad+"): two evaluators used from different goroutines race on it (concurrent map access is fatal)"+extra)
 		}
 	}
 }
@@ -707,7 +721,9 @@ func ruleLock(p *Program, r *Reporter) {
 
 const nondetExample = `package t
 import "fmt"
+import "runtime/debug"
 func f(ch, ch2 chan int, p *int) string {
+	_ = debug.Stack()
 	go func() {}()
 	select {
 	case <-ch:
@@ -716,6 +732,15 @@ func f(ch, ch2 chan int, p *int) string {
 	return fmt.Sprintf("%p", p)
 }
 `
+
+// addressSources: calls whose result contains memory addresses, goroutine
+// numbers or process identity.
+var addressSources = map[string]bool{
+	"runtime/debug.Stack": true, "runtime/debug.PrintStack": true, "runtime.Stack": true,
+	"runtime.Caller": true, "runtime.Callers": true, "runtime.NumGoroutine": true,
+	"os.Getpid": true, "os.Getppid": true, "os.Hostname": true, "os.Getwd": true,
+	"(reflect.Value).Pointer": true, "(reflect.Value).UnsafePointer": true, "(reflect.Value).UnsafeAddr": true,
+}
 
 type nondetHit struct {
 	kind string
@@ -740,6 +765,9 @@ func nondetHits(fn *ssa.Function) []nondetHit {
 					}
 				}
 			case *ssa.Call:
+				if x.Call.StaticCallee() != nil && addressSources[calleeFullName(&x.Call)] {
+					out = append(out, nondetHit{"stack trace, goroutine or process identity (" + calleeFullName(&x.Call) + ")", x.Pos()})
+				}
 				for _, a := range x.Call.Args {
 					if c, ok := a.(*ssa.Const); ok && c.Value != nil && c.Value.Kind() == constant.String {
 						if strings.Contains(constant.StringVal(c.Value), "%p") {
@@ -778,7 +806,7 @@ func ruleNondetSrc(p *Program, r *Reporter) {
 			}
 		}
 	}
-	for _, k := range []string{"go statement", "select with several communication cases", "%p in a format string"} {
+	for _, k := range []string{"go statement", "select with several communication cases", "%p in a format string", "stack trace, goroutine or process identity (runtime/debug.Stack)"} {
 		if kinds[k] {
 			r.OkNT("matcher for "+k, "-", fmt.Sprintf("fires on the built-in positive example; %d hit(s) in the library", n))
 		} else {
@@ -809,7 +837,50 @@ func ruleNondetSrc(p *Program, r *Reporter) {
 // mapOrderTable: loops that are neither insert-only nor collect-then-sort,
 // keyed by function, with the reason they are order-insensitive.
 var mapOrderTable = map[string]string{
-	"vm.New": "each iteration optimizes one function's bytecode (the machine's own bytecode is saved and restored around it) and inserts the result under the same name into a fresh map: iterations are independent",
+	"vm.New": "each iteration optimizes one function's bytecode (the machine's own bytecode is saved and restored around it) and inserts the result under the same name into a fresh map: iterations are independent and the loop runs to exhaustion (checked); the DEBUG trace line is printed per iteration in map order — diagnostic output, outside the property",
+}
+
+// earlyExit: a return, break or goto that leaves the range loop from inside
+// its body (function literals and inner loops' own breaks excluded).
+func earlyExit(rs *ast.RangeStmt) ast.Node {
+	var found ast.Node
+	var walk func(n ast.Node, innerLoop bool)
+	walk = func(n ast.Node, innerLoop bool) {
+		ast.Inspect(n, func(x ast.Node) bool {
+			if found != nil || x == nil {
+				return false
+			}
+			switch s := x.(type) {
+			case *ast.FuncLit:
+				return false
+			case *ast.ForStmt:
+				if s != n {
+					walk(s.Body, true)
+					return false
+				}
+			case *ast.RangeStmt:
+				if s != n {
+					walk(s.Body, true)
+					return false
+				}
+			case *ast.SwitchStmt, *ast.TypeSwitchStmt, *ast.SelectStmt:
+				// an unlabelled break inside a switch leaves the switch only
+				if x != n {
+					walk(x, true)
+					return false
+				}
+			case *ast.ReturnStmt:
+				found = s
+			case *ast.BranchStmt:
+				if s.Tok == token.GOTO || (s.Tok == token.BREAK && (!innerLoop || s.Label != nil)) {
+					found = s
+				}
+			}
+			return true
+		})
+	}
+	walk(rs.Body, false)
+	return found
 }
 
 // injectiveReads: comparator read sets that make the order total on the
@@ -884,7 +955,10 @@ func ruleMapOrder(p *Program, r *Reporter) {
 				case "sorted-not-total":
 					r.Fail(key, p.Pos(rs.Pos()), "the entries are collected and sorted, but the comparator is not a total order on them ("+detail+"): entries that compare equal come out in map-iteration order, which differs from run to run")
 				default:
-					if why, ok := mapOrderTable[strings.Replace(fnName, "(*", "(", 1)]; ok && fnName != "" {
+					if exit := earlyExit(rs); exit != nil {
+						// a listed loop is independent per iteration only if it runs to exhaustion
+						r.Fail(key, p.Pos(exit.Pos()), "this iteration over a Go map can stop early (return / break inside the body): which entries were processed before the exit depends on the map's iteration order, so the outcome — here which functions were rewritten by the optimizer and which were left as compiled — differs from one Prepare, and one process, to the next")
+					} else if why, ok := mapOrderTable[strings.Replace(fnName, "(*", "(", 1)]; ok && fnName != "" {
 						r.OkNT(key, p.Pos(rs.Pos()), "listed: "+why)
 					} else if why, ok := mapOrderTable[fnName]; ok {
 						r.OkNT(key, p.Pos(rs.Pos()), "listed: "+why)
